@@ -32,6 +32,7 @@ var engineBAssumptions = []string{
 	"distinct access paths from the inputs denote distinct storage unless the contract declares an alias (case ... ; alias / set)",
 	"machine integers above the ring layer (levels, degrees) are mathematical; loops are unwound to the contract's bound with an unwinding obligation",
 	"symbolic pointers inside inputs are non-nil unless the contract sets them nil (e.g. parameter sets without auxiliary modulus P are covered only where a case says so)",
+	"a slice of machine words handed to a ring-level leaf (an RNS scalar) is a ring element too, keyed by its backing array: copy(dst, src) with equal lengths transfers the ghost attributes, a direct store of a residue forgets them; the ROWS of polynomials are not followed (a leaf's row preconditions `rowsafe` are obligations only where the caller's contract says `safety rows`)",
 	"NOT decided: noise magnitude, statistical quality of the samples, anything about serialization",
 }
 
